@@ -42,29 +42,29 @@ func init() { commands["syncsim"] = syncsim }
 const syCluster = "src"
 
 type syDrv struct {
-	eng      string
-	base     string
-	rng      *rand.Rand
-	tw       *trace.Writer
-	twMu     sync.Mutex
-	cs       *ckServer
-	n        int
-	kinds    []string
-	terms    []uint64
-	sizes    []int
-	keys     []int // key id (1..3) of a "set" entry, 0 otherwise
-	ageDays  int   // raft timestamps of the source entries lie this many days in the past
-	baseTs   int64
-	nseg     int
-	cnt      map[string]int
-	pollMu   sync.RWMutex // held for writing while the receiver is stopped
-	stopPoll chan struct{}
-	pollWg   sync.WaitGroup
-	mreal    []int            // model entry j = real entries mreal[j-1]+1 .. mreal[j]
-	restarts bool             // restart the receiver now and then
-	multi    []*server.Server // -multi: the receiver is a 3-replica raft group (servers in this process)
-	plain    bool             // source without large payloads and APPENDs (long multi-replica runs)
-	snapFailed bool           // this receiver has seen a failing remote snapshot
+	eng        string
+	base       string
+	rng        *rand.Rand
+	tw         *trace.Writer
+	twMu       sync.Mutex
+	cs         *ckServer
+	n          int
+	kinds      []string
+	terms      []uint64
+	sizes      []int
+	keys       []int // key id (1..3) of a "set" entry, 0 otherwise
+	ageDays    int   // raft timestamps of the source entries lie this many days in the past
+	baseTs     int64
+	nseg       int
+	cnt        map[string]int
+	pollMu     sync.RWMutex // held for writing while the receiver is stopped
+	stopPoll   chan struct{}
+	pollWg     sync.WaitGroup
+	mreal      []int            // model entry j = real entries mreal[j-1]+1 .. mreal[j]
+	restarts   bool             // restart the receiver now and then
+	multi      []*server.Server // -multi: the receiver is a 3-replica raft group (servers in this process)
+	plain      bool             // source without large payloads and APPENDs (long multi-replica runs)
+	snapFailed bool             // this receiver has seen a failing remote snapshot
 }
 
 func (d *syDrv) emit(m trace.M) {
@@ -478,12 +478,18 @@ func (d *syDrv) applyDirect(kv *node.KVStore, i int) {
 // remoteSnapOk: the source cluster has compacted its log; the sender ships a snapshot instead: a
 // checkpoint of the source's data as of entry idx (ahead of the synced position), announced with
 // NotifyTransferSnap (fetched through the local copy path) and applied with NotifyApplySnap.
-func (d *syDrv) remoteSnapOk() {
+func (d *syDrv) remoteSnapOk() { d.remoteSnapAt(0) }
+
+// remoteSnapAt: at == 0: a snapshot a little ahead of the synced position.
+func (d *syDrv) remoteSnapAt(at int) {
 	s := d.synced()
 	if s+8 > d.n || d.snapFailed {
 		return
 	}
 	idx := s + 2 + d.rng.Intn(5)
+	if at > 0 {
+		idx = at
+	}
 	term := d.terms[idx-1]
 	srcDir := filepath.Join(d.base, fmt.Sprintf("srcstore%d-%d", d.nseg, d.cnt["remote_snapshots_applied"]))
 	opts := &node.KVOptions{DataDir: srcDir, EngType: rockredis.EngType, ExpirationPolicy: common.WaitCompact, DataVersion: common.ValueHeaderV1}
@@ -779,7 +785,14 @@ func (d *syDrv) simSequence(steps []graph.Edge, modelN int) error {
 			d.obs("restart")
 		case "Observe":
 			flush()
-		case "ApplyCheck", "ApplyEffect", "ApplySynced", "Next":
+		case "InstallRemoteSnap":
+			// the sender ships a snapshot of the source as of model entry j
+			flush()
+			j := ckAtoi(e.Args[0])
+			if d.mreal[j] > d.synced() {
+				d.remoteSnapAt(d.mreal[j])
+			}
+		case "ApplyCheck", "ApplyEffect", "ApplySynced", "ApplySnapEntry", "CancelPrefix", "Next":
 			// the receiver's apply loop runs by itself
 		default:
 			panic("unknown action " + e.Label)
